@@ -39,6 +39,8 @@ import sexp
 from props import c08gen
 from props import liftfull_engine
 
+LF_SELFTEST_SRC = "template S() { signal input a; signal output b; b <-- a; }"
+
 # class name (c08gen) -> id in known_findings.jsonl
 KF_IDS = {"decl-tuple-dup-name": "C08-decl-tuple-duplicate-name"}
 
@@ -556,6 +558,25 @@ def run(ctx, proofs):
         hyp_broken.append({"input": None, "origin": "liftfull stage", "definition": "-",
                            "hypothesis": "degenerate: the hypothesis of the C08_liftfull theorems was evaluated on no definition "
                                          "with a `<--` statement"})
+
+    # ... and the evaluation is itself tested: in the DEF of a one-`<--` template the substitution is written twice
+    # (same meta, same name): the driver must answer hypothesis unmet AND conclusion false; the original: met and true
+    st_rows, _ = liftfull_engine.flags_for_sources(common, [("self-test", LF_SELFTEST_SRC)])
+    lf_self = "no definition"
+    if st_rows:
+        d0 = st_rows[0]["def"]
+        sub = d0[d0.index("(sub @"):-2]
+        d1 = d0[:-2] + " " + sub + "))"
+        m1 = common.run_lines(common.build_model("liftfull"), [], [d1])[0]
+        f0 = st_rows[0]["flags"]
+        f1 = dict(x.split(" ", 1) for x in m1.split("\t")[1:] if " " in x)
+        want0, want1 = {"SD": "1", "SN": "1", "SKD": "1"}, {"SD": "0", "SN": "2", "SKD": "0"}
+        got0, got1 = {k: f0.get(k) for k in want0}, {k: f1.get(k) for k in want1}
+        lf_self = None if (got0, got1) == (want0, want1) else "original %s (want %s), duplicated statement %s (want %s)" % (got0, want0, got1, want1)
+    lf["selftest"] = lf_self or "passed: a `<--` statement written twice in a real DEF is flagged (hypothesis unmet, conclusion false)"
+    if lf_self:
+        hyp_broken.append({"input": LF_SELFTEST_SRC, "origin": "self-test", "definition": "S",
+                           "hypothesis": "the evaluation of source_metas_distinct_b / subkeys_distinct_b in the liftfull driver is broken: " + lf_self})
 
     # the checks of the hypotheses are themselves checked on every run
     selftest = hypothesis_selftest(harness, model)
